@@ -237,6 +237,16 @@ class Gen:
             n = 0
             for c in r2.sample(composite, min(len(composite), 2)) + r2.sample(leafs, 2):
                 args = [("n", "Int", None)] if r2.random() < 0.5 else []
+                if "arg_probe" in self.features:
+                    # C03: subscription variables of every kind (input objects, custom scalars, lists, enums)
+                    main_rng, self.rng = self.rng, r2
+                    try:
+                        aused = {"n"}
+                        for _ in range(r2.randint(2, 4)):
+                            base = r2.choice(leafs + in_names + in_names + self.custom)
+                            args.append((self.word(aused), self.wrap(base, 0.4), None))
+                    finally:
+                        self.rng = main_rng
                 wraps = WRAPPERS[:2] if r2.random() < 0.6 else WRAPPERS
                 self.subscription_fields[f"on{c}{n}"] = (r2.choice(wraps).format(c), args)
                 n += 1
